@@ -120,6 +120,9 @@ def gen_plan(run_seed, tier, profile, focus):
   if profile == "ecdsa_large":
     from dst import engine_a_gen_ec as E
     return E.gen_ecdsa_large(r, tier, f, focus)
+  if profile == "ecdsa_huge":
+    from dst import engine_a_gen_ec as E
+    return E.gen_ecdsa_huge(r, tier, f, focus)
   if profile == "ec":
     from dst import engine_a_gen_ec as E
     return E.gen_ec(r, tier, f, focus)
